@@ -662,3 +662,10 @@ class TelescopingBattery:
 
 
 BOUNDED = [TelescopingBattery()]
+
+
+def LATE_UNITS():
+    # "fine jumps landing on coarse-grid states are copied unchanged": the states of level l-1 ARE states of level l (every
+    # old state at twice its index, on ITS OWN axis) -- the contract of CTMCGrid.refine lives in c13
+    from contracts import c13
+    return [c13.Refine()]
